@@ -34,7 +34,7 @@ def shards(tier):
 
 def required_counters(tier):
     return {'judged:construct': 100, 'judged:getitem': 100, 'judged:addsub': 100, 'judged:separation': 100,
-            'judged:rotate': 100, 'judged:copy': 50, 'judged:sky-roundtrip': 50, 'judged:iter': 50, 'sky-sip-wcs': 20, 'sky-sip-modes-differ': 10}
+            'judged:rotate': 100, 'judged:copy': 50, 'judged:sky-roundtrip': 50, 'judged:iter': 50, 'sky-sip-wcs': 20, 'sky-sip-modes-differ': 10, 'sky-lat-first-wcs': 20}
 
 
 LANES = ['construct', 'construct-bad', 'getitem', 'iterlen', 'addsub', 'separation', 'rotate', 'rotate', 'copy', 'eq', 'sky']
@@ -358,6 +358,7 @@ def run_case(case, obs):
     elif lane == 'sky':
         prng = random.Random(case['rs'])
         ws = gen.wcs_spec(prng)
+        latfirst = False
         sip = prng.random() < 0.35
         if sip:
             # a distorted (SIP) celestial WCS: 'all' includes the distortion, 'wcs' is the core transformation only
@@ -367,6 +368,15 @@ def run_case(case, obs):
             h.update({'A_ORDER': 2, 'B_ORDER': 2, 'A_2_0': prng.uniform(-2e-5, 2e-5), 'A_0_2': prng.uniform(-2e-5, 2e-5), 'A_1_1': prng.uniform(-2e-5, 2e-5),
                       'B_2_0': prng.uniform(-2e-5, 2e-5), 'B_0_2': prng.uniform(-2e-5, 2e-5), 'B_1_1': prng.uniform(-2e-5, 2e-5)})
             obs.count('sky-sip-wcs')
+        elif prng.random() < 0.25:
+            # a celestial WCS whose first pixel axis is the latitude (axis order is a header choice)
+            h = ws['hdr']
+            h['CTYPE1'], h['CTYPE2'] = h['CTYPE2'], h['CTYPE1']
+            h['CRVAL1'], h['CRVAL2'] = h['CRVAL2'], h['CRVAL1']
+            h['CD1_1'], h['CD2_1'] = h['CD2_1'], h['CD1_1']
+            h['CD1_2'], h['CD2_2'] = h['CD2_2'], h['CD1_2']
+            obs.count('sky-lat-first-wcs')
+            latfirst = True
         w = S.build(ws)
         shape = sx if sx != (0, 3) else (4,)
         x = w.wcs.crpix[0] + nrng.uniform(-300, 300, shape)
@@ -392,6 +402,8 @@ def run_case(case, obs):
             a_, w_ = p.to_sky(w, mode='all'), p.to_sky(w, mode='wcs')
             if np.size(x) and np.max(np.asarray(a_.separation(w_).deg)) > 0:
                 obs.count('sky-sip-modes-differ')
+        if latfirst:
+            return          # astropy's SkyCoord.from_pixel and WCS.pixel_to_world disagree for such a WCS; only the round trip is stated
         sk0 = p.to_sky(w)
         ref = w.pixel_to_world(x, y)
         sep = sk0.separation(ref).deg
